@@ -216,6 +216,17 @@ example : allConforming envW { baseFn with flags := flagsOfSource "f" "@pedantic
 end PedVerif.Call
 
 
+/-! ## which names forward references refer to
+
+The class table of a case carries the context as `Env.ctx`; the harness builds it as *the names of the module that defines the
+callable, complemented by the names of the calling frame* - what the source says since 173abdd (before, only the calling frame
+counted: a coroutine stepped by the event loop, or a generator's value checks, saw no names at all and conforming values of
+`List['Item']` were rejected).  The two facts below are re-read from the source on every run. -/
+namespace PedVerif.Call
+open PedVerif.Gen.CallTables
+theorem cfg_context : callContextIncludesFunctionGlobals = true ∧ generatorWrapperReceivesContext = true := by decide
+end PedVerif.Call
+
 /-! ## conforming calls of functions with TypeVars stay transparent when calls overlap
 
 Transparency must not depend on what else is going on: a call whose values are compatible is accepted whatever calls its body
